@@ -9,7 +9,7 @@ Descriptor
    {"name": "u0", "kind": "unary", "rk": "int"|"bytes", "logs": [LOG…], "out": {"ok": id, "n": payload bytes} | {"raise": EXC}},
    {"name": "p1", "kind": "producer"|"exchange", "okind": KIND, "ikind": "int"|"dict", "early": bool, "header": bool, "hdr": 7,
     "init_logs": [LOG…], "init": "ok" | {"raise": EXC}, "steps": [STEP…]}]}
-STEP as in svcgen; B = {"id": 3, "rows": 2, "meta": {...}};  KIND = "int" | "dict" | "zero" | "mix"
+STEP as in svcgen; B = {"id": 3, "rows": 2, "meta": {...}};  KIND = "int" | "dict" | "dictA" | "dictB" | "dictC" | "zero" | "mix" | "ndl" | "nds" | "ndm"
 
 Script
 ------
@@ -43,6 +43,19 @@ OUT_SCHEMAS = {
     "zero": pa.schema([]),
     "mix": pa.schema([("x", pa.int64()), ("d", DICT_T), ("s", pa.utf8())]),
 }
+# schema shapes that select / stress the two decode paths of `_deserialize_from_shm`:
+#  * dictA / dictB / dictC: top-level dictionary column; the schemas are EQUAL for pyarrow (`==`; A and B also hash alike)
+#    and differ only in field-level (B) or schema-level (C) metadata — used in one process, each must be delivered as declared
+#  * ndl / nds / ndm: the dictionary type is nested (list item / struct child / map value): `_has_dictionary_columns` says
+#    "no dictionary", so the region holds a full IPC stream WITH dictionary messages before the record batch
+OUT_SCHEMAS.update({
+    "dictA": pa.schema([pa.field("x", DICT_T, metadata={"unit": "metres"})]),
+    "dictB": pa.schema([pa.field("x", DICT_T, metadata={"unit": "seconds", "k": "2"})]),          # == dictA, same hash
+    "dictC": pa.schema([pa.field("x", DICT_T, metadata={"unit": "metres"})], metadata={"origin": "C"}),   # == dictA
+    "ndl": pa.schema([("x", pa.int64()), pa.field("t", pa.list_(DICT_T), metadata={"shape": "list"})]),
+    "nds": pa.schema([("x", pa.int64()), ("t", pa.struct([("d", DICT_T), ("n", pa.int32())]))], metadata={"origin": "nds"}),
+    "ndm": pa.schema([("x", pa.int64()), ("t", pa.map_(pa.utf8(), DICT_T))]),
+})
 IN_SCHEMAS = {"int": pa.schema([("v", pa.int64())]), "dict": pa.schema([("v", DICT_T)])}
 
 
@@ -59,6 +72,19 @@ def mk_out(kind: str, ident: int, rows: int) -> pa.RecordBatch:
         return pa.RecordBatch.from_arrays([pa.repeat(pa.scalar(ident, pa.int64()), rows)], schema=OUT_SCHEMAS["int"])
     if kind == "dict":
         return pa.RecordBatch.from_arrays([_dict_arr(ident, rows)], schema=OUT_SCHEMAS["dict"])
+    if kind in ("dictA", "dictB", "dictC"):
+        return pa.RecordBatch.from_arrays([_dict_arr(ident, rows)], schema=OUT_SCHEMAS[kind])
+    if kind in ("ndl", "nds", "ndm"):
+        xs = pa.repeat(pa.scalar(ident, pa.int64()), rows)
+        d = _dict_arr(ident, rows)
+        if kind == "ndl":
+            t = pa.ListArray.from_arrays(pa.array(list(range(rows + 1)), type=pa.int32()), d)
+        elif kind == "nds":
+            t = pa.StructArray.from_arrays([d, pa.array(([7, 8] * (rows // 2 + 1))[:rows], type=pa.int32())], names=["d", "n"])
+        else:
+            t = pa.MapArray.from_arrays(pa.array(list(range(rows + 1)), type=pa.int32()),
+                                        pa.array([f"k{i % 5}" for i in range(rows)], type=pa.utf8()), d)
+        return pa.RecordBatch.from_arrays([xs, t], schema=OUT_SCHEMAS[kind])
     if kind == "zero":
         return pa.RecordBatch.from_struct_array(pa.array([{}] * rows, type=pa.struct([])))
     if kind == "mix":
@@ -123,10 +149,22 @@ def app_md(cm: Any) -> dict[str, str]:
     return md
 
 
+def schema_desc(schema: pa.Schema) -> str:
+    """The delivered schema as the caller sees it: names, types (nested children included), nullability, field-level and
+    schema-level metadata.  (`Schema.__eq__` / `str()` ignore or truncate metadata, hence spelled out.)"""
+    def fld(f: pa.Field) -> Any:
+        kids = [fld(f.type.field(i)) for i in range(f.type.num_fields)] if f.type.num_fields else []
+        md = sorted((k.decode(), v.decode()) for k, v in (f.metadata or {}).items())
+        return [f.name, str(f.type), f.nullable, md, kids]
+    smd = sorted((k.decode(), v.decode()) for k, v in (schema.metadata or {}).items())
+    return json.dumps([[fld(f) for f in schema], smd])
+
+
 def content(batch: pa.RecordBatch) -> str:
     """Logical content (independent of physical layout): compared between shm and inline delivery."""
-    d = json.dumps([str(batch.schema), batch.num_rows, batch.to_pydict()], sort_keys=True, default=str)
-    return d if len(d) < 2000 else hashlib.blake2b(d.encode(), digest_size=16).hexdigest()
+    d = json.dumps([batch.num_rows, batch.to_pydict()], sort_keys=True, default=str)
+    d = d if len(d) < 2000 else hashlib.blake2b(d.encode(), digest_size=16).hexdigest()
+    return json.dumps({"schema": schema_desc(batch.schema), "values": d})
 
 
 def digest(batch: pa.RecordBatch) -> str:
